@@ -1,6 +1,9 @@
 /-
-C17 helper lemmas, part 1: text primitives (split, lines, decimal, hex) and the
-`as_string` / `from_string` round trip.  Core Lean only.
+C17 helper lemmas, part 1: text primitives (split, lines, join, decimal, hex, zero padding,
+`format!` pieces) and the generic `key<kv>value<item>key<kv>value..` rendering that
+`as_string` / `from_string` are instances of.  Nothing here depends on the VALUE of a
+generated constant (except `plainChar`, which names the generated split character); the
+obligations on the generated constants are in Pdb/Proofs/C17Gen.lean.  Core Lean only.
 -/
 import Pdb.Model.Meta
 
@@ -187,13 +190,12 @@ theorem decGo_ne_nil (fuel n : Nat) (acc : Text) (h : fuel ≠ 0 ∨ acc ≠ [])
 
 theorem dec_ne_nil (n : Nat) : dec n ≠ [] := decGo_ne_nil _ _ _ (Or.inl (by omega))
 
-theorem isDigit_of_mem_pad2 {n : Nat} {c : Char} (h : c ∈ pad2 n) : isDigit c = true := by
-  unfold pad2 at h
-  split at h
-  · rcases List.mem_cons.mp h with h | h
-    · exact h ▸ rfl
-    · exact isDigit_of_mem_dec h
-  · exact isDigit_of_mem_dec h
+theorem isDigit_of_mem_padTo {w : Nat} {t : Text} {c : Char} (ht : ∀ x ∈ t, isDigit x = true)
+    (h : c ∈ padTo w t) : isDigit c = true := by
+  unfold padTo at h
+  rcases List.mem_append.mp h with h | h
+  · rw [(List.mem_replicate.mp h).2]; rfl
+  · exact ht c h
 
 /-! #### decimal round trip: `parseDigits (dec n) 0 = some n` -/
 
@@ -243,17 +245,24 @@ theorem parseDigits_dec (n : Nat) : parseDigits (dec n) 0 = some n := by
   unfold dec
   rw [decGo_val _ _ (by omega)]
 
-theorem parseDigits_pad2 (n : Nat) : parseDigits (pad2 n) 0 = some n := by
-  unfold pad2
-  split
-  · have : isDigit '0' = true := rfl
-    simp only [parseDigits, this, if_true]
-    exact parseDigits_dec n
-  · exact parseDigits_dec n
+theorem parseDigits_zeros (k : Nat) (t : Text) :
+    parseDigits (List.replicate k '0' ++ t) 0 = parseDigits t 0 := by
+  induction k with
+  | zero => rfl
+  | succ k ih =>
+    have h0 : isDigit '0' = true := rfl
+    have h1 : 0 * 10 + ('0'.toNat - 48) = 0 := by decide
+    simp only [List.replicate_succ, List.cons_append, parseDigits, h0, if_true, h1]
+    exact ih
 
-theorem pad2_injective {a b : Nat} (h : pad2 a = pad2 b) : a = b := by
-  have := parseDigits_pad2 a
-  rw [h, parseDigits_pad2 b] at this
+/-- `{:0w}` does not change the number that is read back. -/
+theorem parseDigits_padTo (w n : Nat) : parseDigits (padTo w (dec n)) 0 = some n := by
+  unfold padTo
+  rw [parseDigits_zeros, parseDigits_dec]
+
+theorem padTo_dec_injective {w w' a b : Nat} (h : padTo w (dec a) = padTo w' (dec b)) : a = b := by
+  have := parseDigits_padTo w a
+  rw [h, parseDigits_padTo w' b] at this
   exact (Option.some.inj this).symm
 
 theorem dec_injective {a b : Nat} (h : dec a = dec b) : a = b := by
@@ -278,23 +287,33 @@ theorem parseUnsigned_dec {max n : Nat} (h : n ≤ max) : parseUnsigned max (dec
   · rw [parseDigits_dec]
     simp [h]
 
-/-- Characters that may appear in the generated metadata values: lower-case letters,
-digits, space, `:`, `,`, `_`.  None of them is `=`, `\n` or `\r`. -/
+/-- Characters that may appear in a key or a value of a metadata line: anything but the
+character `load_metadata_file` splits at (generated), `\n` and `\r`. -/
 def plainChar (c : Char) : Bool :=
-  isDigit c || (97 ≤ c.toNat && c.toNat ≤ 122) || c = ' ' || c = ':' || c = ',' || c = '_'
+  c ≠ Gen.Text.metaSplitChar && c ≠ '\n' && c ≠ '\r'
 
-theorem plainChar_ne {c : Char} (h : plainChar c = true) : c ≠ '=' ∧ c ≠ '\n' ∧ c ≠ '\r' := by
-  refine ⟨?_, ?_, ?_⟩ <;> (intro heq; subst heq; revert h; decide)
+theorem plainChar_ne {c : Char} (h : plainChar c = true) :
+    c ≠ Gen.Text.metaSplitChar ∧ c ≠ '\n' ∧ c ≠ '\r' := by
+  simp only [plainChar, Bool.and_eq_true, decide_eq_true_eq] at h
+  exact ⟨h.1.1, h.1.2, h.2⟩
+
+/-- T0 obligation: the split character of the metadata loader is not a decimal digit. -/
+theorem splitChar_not_digit : isDigit Gen.Text.metaSplitChar = false := by decide
 
 theorem plainChar_of_isDigit {c : Char} (h : isDigit c = true) : plainChar c = true := by
-  simp [plainChar, h]
+  have h1 : c ≠ Gen.Text.metaSplitChar := by
+    intro heq; rw [heq, splitChar_not_digit] at h; cases h
+  have h2 : c ≠ '\n' := by intro heq; subst heq; revert h; decide
+  have h3 : c ≠ '\r' := by intro heq; subst heq; revert h; decide
+  simp [plainChar, h1, h2, h3]
 
 theorem isDigit_ne_underscore {c : Char} (h : isDigit c = true) : c ≠ '_' := by
   intro heq; subst heq; revert h; decide
 
+/-- T0 obligation: ... nor a hexadecimal digit. -/
 theorem plainChar_hexDigitChar (d : Nat) : plainChar (hexDigitChar d) = true := by
   unfold hexDigitChar
-  split <;> rfl
+  split <;> decide
 
 theorem plain_hexEncode (bs : List Nat) : (hexEncode bs).all plainChar = true := by
   induction bs with
@@ -344,39 +363,6 @@ theorem hexDecode_lt : ∀ {t : Text} {bs : List Nat}, hexDecode t = some bs →
       · exact hexDecode_lt hr b' hb'
     · cases h
 
-/-! ### `from_string (as_string o)` -/
-
-/-- One `key: value` item of the options text. -/
-def item (k v : Text) : Text := k ++ t!": " ++ v
-
-theorem asString_eq (o : ColumnOptions) :
-    asString o =
-      item t!"preimage" (boolText o.preimage) ++ t!", " ++
-      (item t!"uniform" (boolText o.uniform) ++ t!", " ++
-      (item t!"refc" (boolText o.refCounted) ++ t!", " ++
-      (item t!"compression" (dec o.compression.code) ++ t!", " ++
-      (item t!"ordered" (boolText o.btreeIndex) ++ t!", " ++
-      (item t!"multitree" (boolText o.multitree) ++ t!", " ++
-      (item t!"append_only" (boolText o.appendOnly) ++ t!", " ++
-      item t!"allow_direct_node_access" (boolText o.allowDirectNodeAccess))))))) := by
-  simp [asString, item, List.append_assoc]
-
-theorem plain_boolText (b : Bool) : (boolText b).all plainChar = true := by
-  cases b <;> decide
-
-theorem plain_asString (o : ColumnOptions) : (asString o).all plainChar = true := by
-  simp only [asString, List.all_append, plain_boolText, plain_dec, Bool.and_true]
-  decide
-
-/-- The values printed by `as_string` contain neither `,` nor `:` nor `z`. -/
-def valueChar (c : Char) : Bool := c ≠ ',' && c ≠ ':' && c ≠ 'z'
-
-theorem value_boolText (b : Bool) : (boolText b).all valueChar = true := by
-  cases b <;> decide
-
-theorem value_code (c : Compression) : (dec c.code).all valueChar = true := by
-  cases c <;> decide
-
 theorem not_mem_of_all {p : Char → Bool} {t : Text} {c : Char} (h : t.all p = true)
     (hc : p c = false) : c ∉ t := by
   intro hm
@@ -384,123 +370,137 @@ theorem not_mem_of_all {p : Char → Bool} {t : Text} {c : Char} (h : t.all p = 
   rw [hc] at this
   cases this
 
-/-- Splitting one item on `": "`. -/
-theorem firstTwo_item {k v : Text} (hk : ':' ∉ k) (hv : v.all valueChar = true) :
-    firstTwo (splitOn t!": " (item k v)) = some (k, v) := by
-  have hv' : ':' ∉ v := not_mem_of_all hv (by decide)
-  have h1 : splitOn t!": " (item k v) = k :: splitOn t!": " v := by
-    have := splitOn_first (p0 := ':') (ps := [' ']) (a := k) v hk
-    simpa [item, List.append_assoc] using this
-  have h2 : splitOn t!": " v = [v] := splitOn_absent (c := ':') (by decide) hv'
+/-! ### `format!` pieces and the `key<kv>value<item>key<kv>value..` rendering -/
+
+/-- A property of all characters of the pieces and of the values holds for the formatted text. -/
+theorem all_fmt {P : Char → Bool} : ∀ (ps vs : List Text), ps.all (fun p => p.all P) = true →
+    vs.all (fun v => v.all P) = true → (fmt ps vs).all P = true
+  | [], _, _, _ => rfl
+  | p :: _, [], hp, _ => by
+    simp only [List.all_cons, Bool.and_eq_true] at hp
+    simpa [fmt] using hp.1
+  | p :: ps, v :: vs, hp, hv => by
+    simp only [List.all_cons, Bool.and_eq_true] at hp hv
+    simp only [fmt, List.all_append, Bool.and_eq_true]
+    exact ⟨hp.1, hv.1, all_fmt ps vs hp.2 hv.2⟩
+
+/-- The pieces a format string `l1<kv>{}<item>l2<kv>{}..<item>ln<kv>{}` splits into. -/
+def piecesOf (sepI sepK : Text) : List Text → List Text
+  | [] => [[]]
+  | l :: ls => (l ++ sepK) :: (ls.map (fun l => sepI ++ (l ++ sepK)) ++ [[]])
+
+/-- `<item>k<kv>v` for every pair. -/
+def renderTail (sepI sepK : Text) : List (Text × Text) → Text
+  | [] => []
+  | (k, v) :: r => sepI ++ (k ++ (sepK ++ (v ++ renderTail sepI sepK r)))
+
+/-- `k1<kv>v1<item>k2<kv>v2..`. -/
+def renderItems (sepI sepK : Text) : List (Text × Text) → Text
+  | [] => []
+  | (k, v) :: r => k ++ (sepK ++ (v ++ renderTail sepI sepK r))
+
+theorem fmt_tail (sepI sepK : Text) : ∀ (ls vs : List Text), ls.length = vs.length →
+    fmt (ls.map (fun l => sepI ++ (l ++ sepK)) ++ [[]]) vs = renderTail sepI sepK (ls.zip vs)
+  | [], [], _ => rfl
+  | [], _ :: _, h => by simp at h
+  | _ :: _, [], h => by simp at h
+  | l :: ls, v :: vs, h => by
+    have ih := fmt_tail sepI sepK ls vs (by simpa using h)
+    simp only [List.map_cons, List.cons_append, fmt, List.zip_cons_cons, renderTail, ih,
+      List.append_assoc]
+
+/-- Filling the pieces of such a format string renders the (label, value) pairs. -/
+theorem fmt_piecesOf (sepI sepK : Text) {ls vs : List Text} (h : ls.length = vs.length) :
+    fmt (piecesOf sepI sepK ls) vs = renderItems sepI sepK (ls.zip vs) := by
+  cases ls with
+  | nil =>
+    cases vs with
+    | nil => rfl
+    | cons _ _ => simp at h
+  | cons l ls =>
+    cases vs with
+    | nil => simp at h
+    | cons v vs =>
+      have ih := fmt_tail sepI sepK ls vs (by simpa using h)
+      simp only [piecesOf, fmt, List.zip_cons_cons, renderItems, ih, List.append_assoc]
+
+theorem not_mem_renderTail {c : Char} {sepI sepK : Text} (hI : c ∉ sepI) (hK : c ∉ sepK) :
+    ∀ {r : List (Text × Text)}, (∀ kv ∈ r, c ∉ kv.1 ∧ c ∉ kv.2) → c ∉ renderTail sepI sepK r
+  | [], _ => by simp [renderTail]
+  | (k, v) :: r, h => by
+    have hkv := h (k, v) (by simp)
+    have ih := not_mem_renderTail hI hK (r := r) (fun kv hm => h kv (List.mem_cons_of_mem _ hm))
+    simp only [renderTail, List.mem_append, not_or]
+    exact ⟨hI, hkv.1, hK, hkv.2, ih⟩
+
+theorem not_mem_renderItems {c : Char} {sepI sepK : Text} (hI : c ∉ sepI) (hK : c ∉ sepK)
+    {r : List (Text × Text)} (h : ∀ kv ∈ r, c ∉ kv.1 ∧ c ∉ kv.2) : c ∉ renderItems sepI sepK r := by
+  cases r with
+  | nil => simp [renderItems]
+  | cons kv r =>
+    obtain ⟨k, v⟩ := kv
+    have hkv := h (k, v) (by simp)
+    have ih := not_mem_renderTail hI hK (r := r) (fun kv hm => h kv (List.mem_cons_of_mem _ hm))
+    simp only [renderItems, List.mem_append, not_or]
+    exact ⟨hkv.1, hK, hkv.2, ih⟩
+
+/-- Splitting at the item separator gives back the items, when the first character of the
+separator occurs neither in a key, nor in a value, nor in the key/value separator. -/
+theorem splitOn_renderTail (p0 : Char) (ps sepK : Text) (hK : p0 ∉ sepK) :
+    ∀ (r : List (Text × Text)) (a : Text), p0 ∉ a → (∀ kv ∈ r, p0 ∉ kv.1 ∧ p0 ∉ kv.2) →
+      splitOn (p0 :: ps) (a ++ renderTail (p0 :: ps) sepK r) =
+        a :: r.map (fun kv => kv.1 ++ (sepK ++ kv.2))
+  | [], a, ha, _ => by
+    simp only [renderTail, List.append_nil, List.map_nil]
+    exact splitOn_absent (c := p0) (by simp) ha
+  | (k, v) :: r, a, ha, h => by
+    have hkv := h (k, v) (by simp)
+    have hitem : p0 ∉ k ++ (sepK ++ v) := by
+      simp only [List.mem_append, not_or]; exact ⟨hkv.1, hK, hkv.2⟩
+    have ih := splitOn_renderTail p0 ps sepK hK r (k ++ (sepK ++ v)) hitem
+      (fun kv hm => h kv (List.mem_cons_of_mem _ hm))
+    have e : a ++ renderTail (p0 :: ps) sepK ((k, v) :: r) =
+        a ++ (p0 :: ps) ++ ((k ++ (sepK ++ v)) ++ renderTail (p0 :: ps) sepK r) := by
+      simp only [renderTail, List.append_assoc]
+    rw [e, splitOn_first _ ha, ih]
+    rfl
+
+theorem splitOn_renderItems (p0 : Char) (ps sepK : Text) (hK : p0 ∉ sepK)
+    (r : List (Text × Text)) (hne : r ≠ []) (h : ∀ kv ∈ r, p0 ∉ kv.1 ∧ p0 ∉ kv.2) :
+    splitOn (p0 :: ps) (renderItems (p0 :: ps) sepK r) =
+      r.map (fun kv => kv.1 ++ (sepK ++ kv.2)) := by
+  cases r with
+  | nil => exact absurd rfl hne
+  | cons kv r =>
+    obtain ⟨k, v⟩ := kv
+    have hkv := h (k, v) (by simp)
+    have hitem : p0 ∉ k ++ (sepK ++ v) := by
+      simp only [List.mem_append, not_or]; exact ⟨hkv.1, hK, hkv.2⟩
+    have := splitOn_renderTail p0 ps sepK hK r (k ++ (sepK ++ v)) hitem
+      (fun kv hm => h kv (List.mem_cons_of_mem _ hm))
+    simp only [renderItems, List.map_cons]
+    simpa only [List.append_assoc] using this
+
+/-- Splitting one item at the key/value separator. -/
+theorem firstTwo_item {q0 : Char} {qs k v : Text} (hk : q0 ∉ k) (hv : q0 ∉ v) :
+    firstTwo (splitOn (q0 :: qs) (k ++ ((q0 :: qs) ++ v))) = some (k, v) := by
+  have h1 : splitOn (q0 :: qs) (k ++ ((q0 :: qs) ++ v)) = k :: splitOn (q0 :: qs) v := by
+    have := splitOn_first (p0 := q0) (ps := qs) (a := k) v hk
+    simpa only [List.append_assoc] using this
+  have h2 : splitOn (q0 :: qs) v = [v] := splitOn_absent (c := q0) (by simp) hv
   rw [h1, h2]; rfl
 
-theorem comma_not_mem_item {k v : Text} (hk : k.all valueChar = true)
-    (hv : v.all valueChar = true) : ',' ∉ item k v := by
-  have h : (item k v).all (fun c => c ≠ ',') = true := by
-    simp only [item, List.all_append]
-    have h1 : k.all (fun c => decide (c ≠ ',')) = true :=
-      List.all_eq_true.mpr fun c hc => by
-        have := List.all_eq_true.mp hk c hc
-        simp only [valueChar, Bool.and_eq_true, decide_eq_true_eq] at this
-        simpa using this.1.1
-    have h2 : v.all (fun c => decide (c ≠ ',')) = true :=
-      List.all_eq_true.mpr fun c hc => by
-        have := List.all_eq_true.mp hv c hc
-        simp only [valueChar, Bool.and_eq_true, decide_eq_true_eq] at this
-        simpa using this.1.1
-    rw [h1, h2]; decide
-  exact not_mem_of_all h (by decide)
-
-theorem z_not_mem_asString (o : ColumnOptions) : 'z' ∉ asString o := by
-  have h : (asString o).all (fun c => c ≠ 'z') = true := by
-    have hb : ∀ b, (boolText b).all (fun c => decide (c ≠ 'z')) = true := by
-      intro b; cases b <;> decide
-    have hc : (dec o.compression.code).all (fun c => decide (c ≠ 'z')) = true := by
-      cases o.compression <;> decide
-    simp only [asString, List.all_append, hb, hc, Bool.and_true]
-    decide
-  exact not_mem_of_all h (by decide)
-
-/-- The `HashMap` built by `from_string` from the output of `as_string`. -/
-theorem parseItems_asString (o : ColumnOptions) :
-    parseItems (asString o) =
-      [(t!"preimage", boolText o.preimage), (t!"uniform", boolText o.uniform),
-       (t!"refc", boolText o.refCounted), (t!"compression", dec o.compression.code),
-       (t!"ordered", boolText o.btreeIndex), (t!"multitree", boolText o.multitree),
-       (t!"append_only", boolText o.appendOnly),
-       (t!"allow_direct_node_access", boolText o.allowDirectNodeAccess)] := by
-  have hsz : splitOn t!"sizes: " (asString o) = [asString o] :=
-    splitOn_absent (c := 'z') (by decide) (z_not_mem_asString o)
-  unfold parseItems
-  rw [hsz]
-  simp only
-  rw [asString_eq]
-  have vb := value_boolText
-  have vc := value_code o.compression
-  rw [splitOn_first (p0 := ',') (ps := [' ']) _ (comma_not_mem_item (by decide) (vb _)),
-      splitOn_first (p0 := ',') (ps := [' ']) _ (comma_not_mem_item (by decide) (vb _)),
-      splitOn_first (p0 := ',') (ps := [' ']) _ (comma_not_mem_item (by decide) (vb _)),
-      splitOn_first (p0 := ',') (ps := [' ']) _ (comma_not_mem_item (by decide) vc),
-      splitOn_first (p0 := ',') (ps := [' ']) _ (comma_not_mem_item (by decide) (vb _)),
-      splitOn_first (p0 := ',') (ps := [' ']) _ (comma_not_mem_item (by decide) (vb _)),
-      splitOn_first (p0 := ',') (ps := [' ']) _ (comma_not_mem_item (by decide) (vb _)),
-      splitOn_absent (c := ',') (by decide) (comma_not_mem_item (by decide) (vb _))]
-  simp only [List.filterMap_cons, List.filterMap_nil,
-    firstTwo_item (k := t!"preimage") (by decide) (vb _),
-    firstTwo_item (k := t!"uniform") (by decide) (vb _),
-    firstTwo_item (k := t!"refc") (by decide) (vb _),
-    firstTwo_item (k := t!"compression") (by decide) vc,
-    firstTwo_item (k := t!"ordered") (by decide) (vb _),
-    firstTwo_item (k := t!"multitree") (by decide) (vb _),
-    firstTwo_item (k := t!"append_only") (by decide) (vb _),
-    firstTwo_item (k := t!"allow_direct_node_access") (by decide) (vb _)]
+theorem filterMap_items (q0 : Char) (qs : Text) :
+    ∀ (r : List (Text × Text)), (∀ kv ∈ r, q0 ∉ kv.1 ∧ q0 ∉ kv.2) →
+      (r.map (fun kv => kv.1 ++ ((q0 :: qs) ++ kv.2))).filterMap
+        (fun item => firstTwo (splitOn (q0 :: qs) item)) = r
+  | [], _ => rfl
+  | (k, v) :: r, h => by
+    have hkv := h (k, v) (by simp)
+    have ih := filterMap_items q0 qs r (fun kv hm => h kv (List.mem_cons_of_mem _ hm))
+    simp only [List.map_cons, List.filterMap_cons, firstTwo_item hkv.1 hkv.2, ih]
 
 theorem parseBool_boolText (b : Bool) : parseBool (boolText b) = some b := by
   cases b <;> rfl
-
-theorem ofCode_code (c : Compression) :
-    Compression.ofCode (((parseUnsigned 255 (dec c.code)) : Option Nat).getD 0) = .ok c := by
-  cases c <;> rfl
-
-/-- `from_string (as_string o) = Some(o)` for every option combination. -/
-theorem fromString_asString (o : ColumnOptions) : fromString (asString o) = .ok o := by
-  obtain ⟨p, u, r, c, b, m, a, d⟩ := o
-  unfold fromString
-  rw [parseItems_asString]
-  have l1 : ∀ v1 v2 v3 v4 v5 v6 v7 v8 : Text,
-      lookupLast t!"preimage" [(t!"preimage", v1), (t!"uniform", v2), (t!"refc", v3),
-        (t!"compression", v4), (t!"ordered", v5), (t!"multitree", v6), (t!"append_only", v7),
-        (t!"allow_direct_node_access", v8)] = some v1 := fun _ _ _ _ _ _ _ _ => rfl
-  have l2 : ∀ v1 v2 v3 v4 v5 v6 v7 v8 : Text,
-      lookupLast t!"uniform" [(t!"preimage", v1), (t!"uniform", v2), (t!"refc", v3),
-        (t!"compression", v4), (t!"ordered", v5), (t!"multitree", v6), (t!"append_only", v7),
-        (t!"allow_direct_node_access", v8)] = some v2 := fun _ _ _ _ _ _ _ _ => rfl
-  have l3 : ∀ v1 v2 v3 v4 v5 v6 v7 v8 : Text,
-      lookupLast t!"refc" [(t!"preimage", v1), (t!"uniform", v2), (t!"refc", v3),
-        (t!"compression", v4), (t!"ordered", v5), (t!"multitree", v6), (t!"append_only", v7),
-        (t!"allow_direct_node_access", v8)] = some v3 := fun _ _ _ _ _ _ _ _ => rfl
-  have l4 : ∀ v1 v2 v3 v4 v5 v6 v7 v8 : Text,
-      lookupLast t!"compression" [(t!"preimage", v1), (t!"uniform", v2), (t!"refc", v3),
-        (t!"compression", v4), (t!"ordered", v5), (t!"multitree", v6), (t!"append_only", v7),
-        (t!"allow_direct_node_access", v8)] = some v4 := fun _ _ _ _ _ _ _ _ => rfl
-  have l5 : ∀ v1 v2 v3 v4 v5 v6 v7 v8 : Text,
-      lookupLast t!"ordered" [(t!"preimage", v1), (t!"uniform", v2), (t!"refc", v3),
-        (t!"compression", v4), (t!"ordered", v5), (t!"multitree", v6), (t!"append_only", v7),
-        (t!"allow_direct_node_access", v8)] = some v5 := fun _ _ _ _ _ _ _ _ => rfl
-  have l6 : ∀ v1 v2 v3 v4 v5 v6 v7 v8 : Text,
-      lookupLast t!"multitree" [(t!"preimage", v1), (t!"uniform", v2), (t!"refc", v3),
-        (t!"compression", v4), (t!"ordered", v5), (t!"multitree", v6), (t!"append_only", v7),
-        (t!"allow_direct_node_access", v8)] = some v6 := fun _ _ _ _ _ _ _ _ => rfl
-  have l7 : ∀ v1 v2 v3 v4 v5 v6 v7 v8 : Text,
-      lookupLast t!"append_only" [(t!"preimage", v1), (t!"uniform", v2), (t!"refc", v3),
-        (t!"compression", v4), (t!"ordered", v5), (t!"multitree", v6), (t!"append_only", v7),
-        (t!"allow_direct_node_access", v8)] = some v7 := fun _ _ _ _ _ _ _ _ => rfl
-  have l8 : ∀ v1 v2 v3 v4 v5 v6 v7 v8 : Text,
-      lookupLast t!"allow_direct_node_access" [(t!"preimage", v1), (t!"uniform", v2),
-        (t!"refc", v3), (t!"compression", v4), (t!"ordered", v5), (t!"multitree", v6),
-        (t!"append_only", v7), (t!"allow_direct_node_access", v8)] = some v8 :=
-    fun _ _ _ _ _ _ _ _ => rfl
-  simp only [optFlag, l1, l2, l3, l4, l5, l6, l7, l8, Option.bind_some, parseBool_boolText,
-    Option.getD_some, ofCode_code]
 
 end Pdb.C17
